@@ -7,7 +7,12 @@
            preorder — proved from SFcompare's definition through an explicit
            lexicographic key; no reals, no axioms.
    Part 2: the law records.
-   Part 3: the concrete instance. *)
+   Part 3: the concrete instance: seven of the eight NumLaws fields are proved
+           of lib/F64.v + lib/Strconv.v (using proofs/F64Laws.v); the eighth,
+           Go's float formatting round trip, is the explicit hypothesis
+           [StrconvTrusted] (trusted about lib/Strconv.v, validated by 104,865
+           vectors against Go, and tested by a sweep here).  [numlaws_satisfiable]
+           shows that NumLaws has a model without any hypothesis. *)
 From Coq Require Import ZArith Bool List Lia ZifyBool String Ascii.
 From Coq Require Import Floats.SpecFloat.
 From SJ Require Import lib.Base lib.F64 lib.Strconv model.Json model.Ast model.ExecLib model.Leaf
